@@ -36,14 +36,8 @@ impl AsyncOverlayFS {
         &self.layers[0]
     }
 
-    async fn read_path(&self, path: &str) -> VfsResult<AsyncVfsPath> {
-        if path.is_empty() {
-            return Ok(self.layers[0].clone());
-        }
-        // the whiteout bookkeeping is not part of the overlay's namespace
-        if path == "/.whiteout" || path.starts_with("/.whiteout/") {
-            return Err(VfsErrorKind::FileNotFound.into());
-        }
+    /// Finds the layer entry that serves `path`, without looking at its ancestors
+    async fn lookup(&self, path: &str) -> VfsResult<AsyncVfsPath> {
         if self.whiteout_path(path)?.exists().await? {
             return Err(VfsErrorKind::FileNotFound.into());
         }
@@ -53,11 +47,25 @@ impl AsyncOverlayFS {
                 return Ok(layer_path);
             }
         }
-        let read_path = self.write_layer().join(&path[1..])?;
-        if !read_path.exists().await? {
+        Err(VfsErrorKind::FileNotFound.into())
+    }
+
+    async fn read_path(&self, path: &str) -> VfsResult<AsyncVfsPath> {
+        if path.is_empty() {
+            return Ok(self.layers[0].clone());
+        }
+        // the whiteout bookkeeping is not part of the overlay's namespace
+        if path == "/.whiteout" || path.starts_with("/.whiteout/") {
             return Err(VfsErrorKind::FileNotFound.into());
         }
-        Ok(read_path)
+        // a path is only visible if all its ancestors are visible directories: entries below a
+        // removed directory, or below a file that shadows a lower directory, do not exist
+        for (index, _) in path.match_indices('/').skip(1) {
+            if !self.lookup(&path[..index]).await?.is_dir().await? {
+                return Err(VfsErrorKind::FileNotFound.into());
+            }
+        }
+        self.lookup(path).await
     }
 
     fn write_path(&self, path: &str) -> VfsResult<AsyncVfsPath> {
